@@ -831,7 +831,7 @@ def conditions(tier, seed):
                 continue        # unhashable inputs cannot be built
             if q and (SHAPES.index(outer) + SHAPES.index(inner) + seed) % 3 != 0:
                 continue
-            mx = 2 if q else 4
+            mx = 2 if q else 3
             add('finalize_nested[%s,%s]' % (outer, inner), 'finalize_nested',
                 'N in [-1,%d], outer/inner lengths in [0,%d]; %s of %s through $v and #finalize' % (mx, mx, outer, inner),
                 t if q else 900, outer=outer, inner=inner, nmax=mx, maxlen=mx)
